@@ -51,6 +51,10 @@ let render (r : K.irun) : string =
   | K.SErr -> if out = "" then "ERR" else "ERR+OUT " ^ esc out
   | K.SPanic -> "PANIC"
 
+(* F13: postfinance.go:182 prints a debugging line to stdout.  true = the pinned code; set to
+   false once findings/C13-postfinance-debug-println.patch (or an equivalent fix) is applied. *)
+let postfinance_debug = true
+
 (* cobra rejects a missing required flag before run() *)
 let required_account = ["swisscard2"; "postfinance"; "swisscard"]
 
@@ -83,7 +87,7 @@ let run (imp : string) (inp : string) (obs : string) : string * string =
       render (match imp with
         | "swisscard2" -> K.run_swisscard2 a (decode_items items)
         | "cumulus" -> K.run_cumulus a (decode_items items)
-        | "postfinance" -> K.run_postfinance a (decode_items items)
+        | "postfinance" -> K.run_postfinance postfinance_debug a (decode_items items)
         | "swisscard" -> K.run_swisscard a (decode_items items)
         | "supercard" -> K.run_supercard a (decode_items items)
         | "viac" ->
@@ -95,6 +99,7 @@ let run (imp : string) (inp : string) (obs : string) : string * string =
   let spec =
     if kind = "wf" then
       if cls <> "OK" then "FAIL:well-formed statement not imported: " ^ clip 60 base
+      else if pr <> "ok" && rows <> "ok" then "FAIL:print=" ^ pr ^ "; rows=" ^ rows
       else if pr <> "ok" then "FAIL:print=" ^ pr
       else if rows <> "ok" then "FAIL:rows=" ^ rows
       else "ok"
